@@ -55,6 +55,7 @@ type Shell struct {
 	Hazards []Hazard
 	Ext     []ExtCall
 	Stub    ExtStub
+	cmdSubs int // number of command substitutions run so far (decides the status of a pure assignment)
 	Stdin   []Str // lines available to read
 	ctl     ctlKind
 	ctlN    int
@@ -492,11 +493,13 @@ func (sh *Shell) expandParam(p *ShParam) Str {
 func (sh *Shell) cmdSub(list []*Cmd) Str {
 	// fast path: $(if T; then echo A; else echo B; fi) with a pure test becomes an if-then-else term
 	if v, ok := sh.mergedIfEcho(list); ok {
+		sh.cmdSubs++
 		sh.Status = int64(0)
 		return v
 	}
 	sub := sh.subshell()
 	sub.inSub++
+	sh.cmdSubs++
 	sub.runList(list)
 	st := sub.Status
 	if sub.Exited {
@@ -1224,10 +1227,14 @@ func (sh *Shell) runSimple(c *Cmd) {
 		return
 	}
 	if len(argv) == 0 {
-		// pure assignment: the status is that of the last command substitution, else 0
-		sh.Status = int64(0)
+		// pure assignment: the status is that of the last command substitution, else 0; "$?" in the value still
+		// sees the status of the previous command
+		before := sh.cmdSubs
 		for _, a := range c.Assigns {
 			sh.doAssign(a, false)
+		}
+		if sh.cmdSubs == before {
+			sh.Status = int64(0)
 		}
 		return
 	}
